@@ -86,7 +86,7 @@ def gen_list(rng, n, tier):
         elif r2 < 0.12:
             sc = rng.choice([2.0 ** 1000, 2.0 ** -1073, 2.0 ** -500])
             k = [w * sc for w in k]
-        out.append({'x': xs, 'k': k})
+        out.append({'x': xs, 'k': k, 'nodata': rng.choice([None, None, None, 0, 2, 7, -3, 2.5])})
     return out
 
 
@@ -95,6 +95,8 @@ def run_list(case):
     xs = [nan if v is None else float(v) for v in case['x']]
     tr = mktrack(list(range(len(xs))))
     tr.createAnalyticalFeature('a', list(xs))
+    if case.get('nodata') is not None:
+        tr.no_data_value = case['nodata']         # the marker a file reader leaves on its tracks; a sample equal to it is still a sample
     k = [float(v) for v in case['k']]
     ret = tr.operate(Operator.FILTER, 'a', k, 'b')
     return {'out': enc(tr['b']), 'ret': enc(ret), 'a': enc(tr['a']), 'names': tr.getListAnalyticalFeatures(), 'x': tr.getX()}
